@@ -354,6 +354,23 @@ def _check_scan(ck: Checker, slice_) -> None:
                 ck.require(reraises_only or set(types) <= {"FileNotFoundError"}, "C05.scan", fn, h,
                            "the workspace scan is abandoned only when the path does not exist",
                            f"errors {types} from scanning the workspace are swallowed: the current content is then treated as absent and overwritten without the removal guard")
+                if not reraises_only and set(types) <= {"FileNotFoundError"}:
+                    # FileNotFoundError is also what a broken symlink *inside* an existing directory raises:
+                    # carrying on is only sound across "the path itself does not exist"
+                    def absent_edge(a, lab, b):
+                        if lab == "exc":
+                            return True
+                        if a.kind != "test" or not isinstance(a.ast, ast.Call):
+                            return False
+                        nm = call_name(a.ast) or ""
+                        return nm in ("exists", "lexists", "isdir") and lab == "F"
+
+                    r2 = g.reach([h.id], skip_edge=absent_edge)
+                    going_on = [x for x in r2 if x != h.id and g.nodes[x].kind == "stmt" and not isinstance(g.nodes[x].ast, (ast.Raise, ast.Pass))] + ([g.exit] if g.exit in r2 else [])
+                    ck.require(not going_on, "C05.scan", fn, h,
+                               "after a failed scan the checkout carries on only if the path itself does not exist",
+                               "a FileNotFoundError raised from inside an existing workspace directory (e.g. a broken symlink) is taken for 'nothing there yet': every entry becomes an add and modified, uncached user files are overwritten without force or prompt",
+                               construct=f"{h.text()[:40]} / only when absent")
     ck.floor("C05.scan", n, 1, "handlers around the workspace scan (build) in the checkout slice")
 
 
